@@ -132,29 +132,39 @@ def get_constants(filename):
     with open(filename) as f:
         data = json.load(f)
     # rMin and rMax reset rp to the middle of the domain (also when they are
-    # set to their default values): a value given in the file is applied
-    # after them, whatever the order of the keys
-    rp = data.get('rp', None)
+    # set to their default values): a value of rp given in the file is kept
+    # (and rp is left unset until that value has been read), whatever the
+    # order of the keys
+    rp_given = 'rp' in data
+    rp = []
+
+    def assign(key, val):
+        if (key == 'rp'):
+            rp.append(val)
+        setattr(constants, key, val)
+        if (rp_given and key in ('rMin', 'rMax')):
+            constants.rp = rp[0] if rp else None
+
     unmatched = {}
     n = len(data)
     while (len(data) > 0):
         while (len(data) > 0):
             item = data.popitem()
             if (not isinstance(item[1], str)):
-                setattr(constants, item[0], item[1])
+                assign(item[0], item[1])
             else:
                 res = eval_expr(item[1], constants)
                 if (res is None):
                     assert len(data) > 0 or len(unmatched)
                     unmatched[item[0]] = item[1]
                 else:
-                    setattr(constants, item[0], res)
+                    assign(item[0], res)
         data, unmatched = unmatched, data
         assert len(data) < n
         n = len(data)
     constants.set_defaults()
-    if (rp is not None):
-        constants.rp = eval_expr(rp, constants) if isinstance(rp, str) else rp
+    if (rp_given):
+        constants.rp = rp[0]
     if (constants.CN0 is None):
         constants.getCN0()
     return constants
